@@ -71,14 +71,60 @@ theorem row_filter_exact_partial (f : Filt) (rows : List (List (Option Int))) :
       = rows.map (fun r => (normalise f).any (fun g => g.all (fun c => evalCond c r))) := by
   rw [column_filter_dnf]; simp
 
-/-- The full statement ("conditions on partition columns are honoured exactly") is FALSE at row
-    level inside OR groups: the partition term is dropped (known finding).  Witness: one row whose
+/-- BEFORE THE REPAIR (the model with partition conditions skipped): the full statement ("conditions on partition
+    columns are honoured exactly") was FALSE at row level inside OR groups: the partition term was dropped (fixed finding).  Witness: one row whose
     partition value fails the first group's partition condition is still selected. -/
 theorem or_partition_fails :
     ∃ (f : Filt) (rows : List (List (Option Int))),
       columnFilter (fun c => c == 0) f rows
         ≠ rows.map (fun r => (normalise f).any (fun g => g.all (fun c => evalCond c r))) := by
   refine ⟨.nested [[⟨0, "==", 1, []⟩, ⟨1, ">", 5, []⟩], [⟨1, "<", 0, []⟩]], [[some 2, some 7]], by decide⟩
+
+/-! ### the repaired evaluation: partition conditions count, evaluated per row group -/
+
+theorem andPartRG_eq (isPart : Nat → Bool) (rgSat : Nat → Cond → Bool) (sizes : List Nat) (rows : List (List (Option Int)))
+    (hpart : ∀ c : Cond, isPart c.col = true → partitionTerm rgSat sizes c = rows.map (evalCond c)) (g : List Cond) (acc : List Bool) :
+    andPartRG isPart rgSat sizes rows g acc = andPart (fun _ => false) rows g acc := by
+  induction g generalizing acc with
+  | nil => rfl
+  | cons c cs ih =>
+    simp only [andPartRG, andPart, Bool.false_eq_true, if_false]
+    split
+    · rename_i hp
+      rw [hpart c hp, ih]
+    · rw [ih]
+
+theorem loopRG_eq (isPart : Nat → Bool) (rgSat : Nat → Cond → Bool) (sizes : List Nat) (rows : List (List (Option Int)))
+    (hpart : ∀ c : Cond, isPart c.col = true → partitionTerm rgSat sizes c = rows.map (evalCond c)) (gs : List (List Cond)) (out : List Bool) :
+    columnFilterLoopRG isPart rgSat sizes rows gs out = columnFilterLoop (fun _ => false) rows gs out := by
+  induction gs generalizing out with
+  | nil => rfl
+  | cons g gs ih =>
+    simp only [columnFilterLoopRG, columnFilterLoop]
+    rw [andPartRG_eq isPart rgSat sizes rows hpart, ih]
+
+/-- **row-level filtering is exact, partition conditions included** (the code as repaired: `_column_filter` no longer skips
+    a condition on a partition column but ANDs / ORs in `_partition_term`, one flag per row group from the pruning's own test,
+    repeated over the row group's rows).  Provided that flag is the condition's truth value on every row of the row group —
+    which is what directory partitioning gives (all rows of a row group carry the directory's key, C08 `group_key`) together
+    with the pruning test being exact on a single value (C05 `filter_val_sound` at min = max) — the selection is, row by
+    row, the OR over groups of the AND over ALL conditions of the group, a flat list being one AND group. -/
+theorem row_filter_exact (isPart : Nat → Bool) (rgSat : Nat → Cond → Bool) (sizes : List Nat) (f : Filt)
+    (rows : List (List (Option Int)))
+    (hpart : ∀ c : Cond, isPart c.col = true → partitionTerm rgSat sizes c = rows.map (evalCond c)) :
+    columnFilterRG isPart rgSat sizes f rows
+      = rows.map (fun r => (normalise f).any (fun g => g.all (fun c => evalCond c r))) := by
+  unfold columnFilterRG
+  rw [loopRG_eq isPart rgSat sizes rows hpart]
+  exact row_filter_exact_partial f rows
+
+/-- the hypothesis is satisfiable and the statement not vacuous: two row groups (partition value 1, then 2), the OR of
+    `p == 1 ∧ x > 5` and `x < 0` — the row of partition 2 with x = 7, which the code returned before the repair
+    (`or_partition_fails`), is not selected -/
+example :
+    columnFilterRG (fun c => c == 0) (fun i c => evalCond c [some (Int.ofNat (i + 1)), none]) [1, 1]
+      (.nested [[⟨0, "==", 1, []⟩, ⟨1, ">", 5, []⟩], [⟨1, "<", 0, []⟩]]) [[some 1, some 7], [some 2, some 7]]
+      = [true, false] := by decide
 
 /-! ### selection slicing -/
 
@@ -157,11 +203,14 @@ example : columnFilter (fun _ => false) (.flat [⟨0, ">", 1, []⟩, ⟨1, ">", 
     `Impl.RowFilter.columnFilter` and `column_filter_dnf` assume: a flat list of conditions is one AND
     group; the result starts all-false; every AND group gets its OWN all-true accumulator, conditions
     are AND-ed into it and the group is OR-ed into the result; a condition on a partition column is
-    skipped with `continue` (the remaining conditions of the group still count), in both branches -/
+    evaluated per row group (`_partition_term`: the pruning's test once per row group, repeated over its rows) and merged with
+    the group's own operator before the `continue`, in both branches -/
 theorem column_filter_shape_now :
     PqV.Gen.ColumnFilterShape.flatListIsOneAndGroup = true ∧ PqV.Gen.ColumnFilterShape.resultStartsAllFalse = true ∧
     PqV.Gen.ColumnFilterShape.andAccumulatorPerGroup = true ∧
-    PqV.Gen.ColumnFilterShape.skipPartitionInSingle = "continue" ∧ PqV.Gen.ColumnFilterShape.skipPartitionInGroup = "continue" ∧
+    PqV.Gen.ColumnFilterShape.skipPartitionInSingle = "rowgroup-term:BitOr" ∧
+    PqV.Gen.ColumnFilterShape.skipPartitionInGroup = "rowgroup-term:BitAnd" ∧
+    PqV.Gen.ColumnFilterShape.partitionTerm = "pruning-test-per-row-group" ∧
     PqV.Gen.ColumnFilterShape.groupMerges = ["out|=and_part"] ∧ PqV.Gen.ColumnFilterShape.innerOps = ["BitAnd"] ∧
     PqV.Gen.ColumnFilterShape.singleOps = ["BitOr"] := by decide
 
